@@ -31,11 +31,10 @@ var (
 )
 
 func GetRmCacheInstance() *ResourceManagerCache {
-	if rmCacheInstance == nil {
-		onceRMFacade.Do(func() {
-			rmCacheInstance = &ResourceManagerCache{}
-		})
-	}
+	// (no unsynchronised nil check in front of the Once: that read races with the initialisation)
+	onceRMFacade.Do(func() {
+		rmCacheInstance = &ResourceManagerCache{}
+	})
 	return rmCacheInstance
 }
 
